@@ -378,6 +378,8 @@ class Engine:
                 return z3.BoolVal(len(v.items) > 0)
         if k == 'seq':
             return v.extra['len'] > 0
+        if k == 'dyn':
+            return VV.any_len(v.z) > 0
         if k in ('ref', 'func', 'class', 'obj', 'module'):
             if k == 'ref' and v.extra and 'truth' in v.extra:
                 return v.extra['truth']
@@ -591,13 +593,27 @@ class Engine:
             if v is not None and v.k == 'any':
                 kinds = self._isinstance_kinds(test.args[1])
                 if kinds and len(kinds) == 1:
-                    st.env[name] = self.any_as(v, kinds[0])
+                    nv = self.any_as(v, kinds[0])
+                    st.env[name] = nv
+                    if nv.extra and 'facts' in nv.extra:
+                        st.pc.extend(nv.extra['facts'])
         if isinstance(test, ast.BoolOp) and isinstance(test.op, ast.And) and side:
             for t in test.values:
                 st = self.narrow(t, True, st)
         if isinstance(test, ast.UnaryOp) and isinstance(test.op, ast.Not):
             st = self.narrow(test.operand, not side, st)
         return st
+
+    def _isinstance_kinds(self, expr):
+        names = []
+        elts = expr.elts if isinstance(expr, ast.Tuple) else [expr]
+        for e in elts:
+            if isinstance(e, ast.Name) and e.id in ('int', 'float', 'str', 'bytes', 'list', 'tuple',
+                                                    'bool', 'bytearray', 'memoryview'):
+                names.append(e.id)
+            else:
+                return None
+        return names
 
     def any_as(self, v, kind):
         """view of an Any value known (on this path) to have dynamic type kind"""
@@ -609,7 +625,17 @@ class Engine:
             return V('bool', VV.any_bool(v.z), extra={'any': v.z})
         if kind == 'none':
             return NONE
-        if kind in ('str', 'bytes', 'list', 'tuple', 'bytearray', 'memoryview'):
+        if kind == 'str':
+            o = v.z
+            n, u8 = VV.any_len(o), VV.any_u8(o)
+            return V('str', py=None, z=None, extra={
+                'chars': n, 'u8': u8, 'has_nul': VV.any_nul(o), 'ascii': VV.any_ascii(o), 'any': o,
+                'facts': [n >= 0, u8 >= n, u8 <= 4 * n]})
+        if kind in ('bytes', 'bytearray', 'memoryview'):
+            o = v.z
+            return V('bytes', py=None, extra={'len': VV.any_len(o), 'has_nul': VV.any_nul(o), 'any': o,
+                                              'facts': [VV.any_len(o) >= 0]})
+        if kind in ('list', 'tuple'):
             return V('dyn', v.z, cls=kind)
         return v
 
@@ -1365,6 +1391,9 @@ class Engine:
         if a.k == 'str' and b.k == 'str':
             if a.py is not None and b.py is not None:
                 return z3.BoolVal(a.py == b.py)
+            for p_, q_ in ((a, b), (b, a)):
+                if p_.py is None and p_.extra and 'any' in p_.extra and q_.py is not None:
+                    return self.str_is(q_.py)(p_.extra['any'])
             az = a.z if a.z is not None else z3.StringVal(a.py)
             bz = b.z if b.z is not None else z3.StringVal(b.py)
             return az == bz
@@ -1564,6 +1593,18 @@ class Engine:
                 def q(eng, args, kwargs, st, node, _n=name, _o=obj.oid):
                     return [(st, vbool(z3.Bool('%s.%s!%d' % (_o, _n, next(eng.counter)))))]
                 return [(st, V('func', py=('spec', q)))]
+        if obj.k == 'any' and name == 'encode':
+            outs = []
+            for st1, isstr in self.branch(st, VV.tag_of(obj.z) == TAGS['str'], node):
+                if isstr:
+                    sv = self.any_as(obj, 'str')
+                    st1.pc.extend(sv.extra['facts'])
+                    outs.extend(self.get_attr(sv, 'encode', st1, node))
+                else:
+                    outs.append((st1, Raised(self.make_exc('AttributeError', node=node))))
+            return outs
+        if obj.k == 'any' and self.contract.opts.get('any_slices') and False:
+            pass
         if obj.k == 'str' and name == 'encode':
             def enc(eng, args, kwargs, st, node, _s=obj):
                 if _s.py is not None:
@@ -1751,6 +1792,39 @@ class Engine:
             return outs
         if obj.k == 'obj' and self.contract.opts.get('opaque_algebra'):
             return [(st, V('obj', oid='item!%d' % next(self.counter)))]
+        if obj.k == 'any' and idx.k == 'int':
+            t = VV.tag_of(obj.z)
+            outs = []
+            for st1, islist in self.branch(st, z3.Or(t == TAGS['list'], t == TAGS['tuple']), node):
+                if islist:
+                    outs.extend(self.get_item(V('dyn', obj.z, cls='list'), idx, st1, node))
+                    continue
+                for st2, isstr in self.branch(st1, z3.Or(t == TAGS['str'], t == TAGS['bytes']), node):
+                    if isstr:
+                        ch = self.fresh_val('any', 'char')
+                        st2.pc.append(VV.tag_of(ch.z) == z3.If(t == TAGS['str'], TAGS['str'], TAGS['int']))
+                        ln = VV.any_len(obj.z)
+                        for st3, ok in self.branch(st2, z3.And(idx.z >= -ln, idx.z < ln), node):
+                            outs.append((st3, ch if ok else Raised(self.make_exc('IndexError', node=node))))
+                    else:
+                        outs.append((st2, Raised(self.make_exc('TypeError', node=node))))
+            return outs
+        if obj.k in ('dyn', 'seq') and idx.k == 'int' and (obj.k == 'seq' or obj.cls in ('list', 'tuple')):
+            ln = VV.any_len(obj.z) if obj.k == 'dyn' else obj.extra['len']
+            if obj.k == 'dyn':
+                st.pc.append(ln >= 0)
+            outs = []
+            i = idx.z
+            for st1, ok in self.branch(st, z3.And(i >= -ln, i < ln), node):
+                if not ok:
+                    outs.append((st1, Raised(self.make_exc('IndexError', node=node))))
+                    continue
+                j = z3.If(i < 0, i + ln, i)
+                if obj.k == 'dyn':
+                    outs.append((st1, V('any', VV.any_item(obj.z, j))))
+                else:
+                    outs.append((st1, obj.extra['get'](self, j, st1)))
+            return outs
         raise Unsupported(node, 'subscript of %r' % (obj,))
 
     def get_slice(self, obj, sl, st, node):
@@ -1772,6 +1846,24 @@ class Engine:
             lo = cidx(sl.lower, None)
             hi = cidx(sl.upper, None)
             return [(st, V(obj.k, items=obj.items[lo:hi]))]
+        if obj.k == 'any' and sl.step is None and sl.upper is None:
+            t = VV.tag_of(obj.z)
+            outs = []
+            for st1, islist in self.branch(st, t == TAGS['list'], node):
+                if islist:
+                    outs.extend(self.get_slice(V('dyn', obj.z, cls='list'), sl, st1, node))
+                else:
+                    outs.append((st1, Raised(self.make_exc('TypeError', node=node))))
+            return outs
+        if obj.k == 'dyn' and obj.cls in ('list', 'tuple') and sl.step is None and sl.upper is None \
+                and isinstance(sl.lower, ast.Constant) and isinstance(sl.lower.value, int) and sl.lower.value >= 0:
+            k = sl.lower.value
+            o = obj.z
+            ln = VV.any_len(o)
+            st.pc.append(ln >= 0)
+            return [(st, V('seq', extra={
+                'len': z3.If(ln - k > 0, ln - k, 0), 'base': (o, k),
+                'get': (lambda eng, i, st_, _o=o, _k=k: V('any', VV.any_item(_o, i + _k)))}))]
         if obj.k == 'bytes' and sl.step is None:
             L = self.bytes_len(obj)
             res = [(st, [])]
